@@ -74,6 +74,21 @@ def _def_rules(F, R, nm, ty, d, m, lay, cs):
                  where=ty)
     else:
         tagsz = {"u8": 1, "u16": 2, "u32": 4}[d["tag_eff"]]
+        # L7: the tag values are the declared discriminants -- for the enum itself (sized: it is the user's repr(C, tag) enum) and for
+        # the generated <Name>Tag helper the validator and the initialiser use (an omitted discriminant continues +1, like rustc's)
+        want, nxt = [], 0
+        for v in d["variants"]:
+            if v.get("discr") is not None:
+                nxt = v["discr"]
+            want.append(nxt)
+            nxt += 1
+        for adt_name, what in (("flatty_corpus::" + nm, "the enum"), ("flatty_corpus::%sTag" % nm, "the generated tag helper")):
+            adt = F.adts.get(adt_name)
+            if not adt or adt.get("adt_kind") != "enum":
+                continue
+            got = [int(v["discr"]) if v["discr"] is not None else None for v in adt["variants"]]
+            R.ob("L7.tag-discriminants", nm, adt_name.split("::")[-1], got == want,
+                 "%s: discriminants of %s %s = declared %s" % (nm, what, got, want), where=ty)
         if d["sized"]:
             if d["c_like"]:
                 R.ob("L2.repr", nm, "repr", repr_.get("int") is not None and ("I%d" % (8 * tagsz)) in repr_["int"],
@@ -171,6 +186,7 @@ def portable_rules(F, R):
     """C17: align 1, no padding for every corpus type implementing Portable; manifest agreement both ways."""
     man = F.manifest["types"]
     n = 0
+    slack_types = []
     for nm, m in sorted(man.items()):
         ty = _ty(F, nm)
         if ty is None or ty not in F.traits_of:
@@ -211,12 +227,21 @@ def portable_rules(F, R):
                 # C rule offsets already equal rustc's (L4); packedness = each offset equals the sum of previous sizes
             R.ob("P2.no-padding", nm, "payload", ok, "%s: payload starts right after the tag (DATA_OFFSET %s = tag size %d)" % (
                 nm, cs.get("DATA_OFFSET"), tagsz), where=ty)
+            if d["sized"] and not d["c_like"]:
+                full = lay["size"] - tagsz
+                short = [v["name"] for v in d["variants"] if sum((f["size"] or 0) for f in v["fields"]) != full]
+                if short:
+                    slack_types.append("%s (%s)" % (nm, ", ".join(short)))
         elif m["kind"] in ("vec", "string"):
             R.ob("P2.no-padding", nm, "header", cs.get("DATA_OFFSET") == m["len_size"],
                  "%s: data starts right after the length word (DATA_OFFSET %s = %d)" % (nm, cs.get("DATA_OFFSET"), m["len_size"]), where=ty)
         elif m["kind"] == "flex":
             R.ob("P2.no-padding", nm, "slot", cs.get("OFFSET_SIZE") == m["len_size"],
                  "%s: item payload starts right after the offset word (OFFSET_SIZE %s = %d)" % (nm, cs.get("OFFSET_SIZE"), m["len_size"]), where=ty)
+    # a sized enum has the size of its largest variant: the bytes behind a shorter variant's payload belong to the value but to no field
+    R.ob("P2.variant-slack", "<sized portable enums>", "inactive-payload-bytes", not slack_types,
+         "sized portable enums whose variants have different payload sizes carry unspecified bytes behind the shorter variants (as_bytes()/size() cover them): "
+         "the image is not a function of the content alone -- %d corpus types: %s" % (len(slack_types), "; ".join(slack_types)[:300]))
     R.floor("P", "portable corpus types", n, 8)
     # base impls: every `unsafe impl Portable` in flatty_portable has an align-1 self type
     nb = 0
